@@ -147,7 +147,7 @@ theorem evaluate_cost (c : Config K) (x : List K) (costs : Costs K) :
     r.energy = (buildND c.order c.dim dc.times dc.waypoints c.startTime dc.bc).energy ∧
     r.decoded = dc := by
   refine ⟨?_, rfl, rfl, rfl⟩
-  simp only [evaluate, NumOrd.lt, decide_eq_true_eq, lit_eq, Nat.cast_zero]
+  simp only [evaluate, evalCore, NumOrd.lt, decide_eq_true_eq, lit_eq, Nat.cast_zero]
   cases hw : costs.waypoints with
   | none => by_cases hr : 0 < c.rho <;> simp [hr]
   | some wf => by_cases hr : 0 < c.rho <;> simp [hr]
@@ -159,7 +159,7 @@ theorem evaluate_segCost (c : Config K) (x : List K) (costs : Costs K) (i : Nat)
     r.segCosts.getD i 0 =
       ((List.range (c.steps + 1)).map (nodeCost c.order c.dim c.steps costs.run i (dc.times.getD i 0)
         ((segStarts c.startTime dc.times).getD i 0) (r.spline.coeffs.getD i []))).sum := by
-  simp only [evaluate, List.map_map, lit_eq, Nat.cast_zero]
+  simp only [evaluate, evalCore, List.map_map, lit_eq, Nat.cast_zero]
   rw [List.getD_eq_getElem?_getD, List.getElem?_map, List.getElem?_range hi]
   simp only [Option.map_some, Option.getD_some, Function.comp]
   exact quadSegment_cost _ _ _ _ _ _ _ _
